@@ -7,6 +7,7 @@ From ReqV Require Import Model.H2Frame Proofs.H2FrameProofs Proofs.H2OrderProofs
 From ReqV Require Import Model.H2Meta Proofs.H2MetaProofs.
 From ReqV Require Import Model.H3Frame Model.H3Spec Proofs.H3FrameProofs Proofs.H3FieldProofs.
 From ReqV Require Import Model.H3Writer Proofs.H3WriterProofs Model.H2EncConn Proofs.H2EncConnProofs.
+From ReqV Require Import Model.H2ConnThreads Proofs.H2ConnThreadsProofs.
 From Coq Require Import Permutation.
 Open Scope N_scope.
 
@@ -248,6 +249,43 @@ Theorem C05_h2_conn_one_pass_refuted :
 Proof. exact conn_one_pass_refuted. Qed.
 Print Assumptions C05_h2_conn_one_pass_refuted.
 
+(* ---------- concurrent streams of one HTTP/2 connection writing header blocks ---------- *)
+
+(* two streams that each write a header block (request HEADERS or request trailers) as
+   Lock; Encode; Write; Unlock on the connection's one HPACK encoder, header buffer and write lock:
+   under EVERY schedule, when both are through, the peer's one decoder - in step with the encoder at
+   the start - has decoded exactly the two blocks' own fields, in the order the lock was won, and is
+   in step again (hpack: the hypothesis of C05_h2_conn_refusals_leave_no_trace) *)
+Theorem C05_h2_conn_blocks_in_encode_order :
+  forall (S D B : Type) (enc : S -> list hfield -> B * S) (dec : D -> B -> option (list hfield * D))
+         (fs : bool -> list hfield) (insync : S -> D -> Prop),
+  (forall s d l b s', insync s d -> enc s l = (b, s') -> exists d', dec d b = Some (l, d') /\ insync s' d') ->
+  forall s0 d0 sched, insync s0 d0 ->
+  let st := crun S D B enc dec fs true s0 d0 sched in
+  c_pa st = CDone -> c_pb st = CDone ->
+  (c_outs st = [Some (fs true); Some (fs false)] \/ c_outs st = [Some (fs false); Some (fs true)]) /\
+  insync (c_enc st) (c_peer st).
+Proof. exact h2_conn_blocks_in_encode_order. Qed.
+Print Assumptions C05_h2_conn_blocks_in_encode_order.
+
+Theorem C05_h2_conn_peer_never_confused :
+  forall (S D B : Type) (enc : S -> list hfield -> B * S) (dec : D -> B -> option (list hfield * D))
+         (fs : bool -> list hfield) (insync : S -> D -> Prop),
+  (forall s d l b s', insync s d -> enc s l = (b, s') -> exists d', dec d b = Some (l, d') /\ insync s' d') ->
+  forall s0 d0 sched, insync s0 d0 ->
+  Forall (fun o => o = Some (fs true) \/ o = Some (fs false)) (c_outs (crun S D B enc dec fs true s0 d0 sched)).
+Proof. exact h2_conn_peer_never_confused. Qed.
+Print Assumptions C05_h2_conn_peer_never_confused.
+
+(* encoding the trailers before taking the write lock: another stream's HEADERS slip in between *)
+Theorem C05_h2_conn_encode_outside_lock_refuted :
+  let tr := (bs "x-trailer", bs "t") in let h := (bs "x-req", bs "b") in
+  let fs := fun t : bool => if t then [tr] else [h; tr] in
+  let st := crun _ _ _ toy_enc_toks toy_dec_toks fs false [tr] [tr] [true; false; false; false; false; true; true; true] in
+  c_pa st = CDone /\ c_pb st = CDone /\ c_outs st = [Some [h; tr]; Some [h; h]].
+Proof. exact h2_conn_encode_outside_lock_refuted. Qed.
+Print Assumptions C05_h2_conn_encode_outside_lock_refuted.
+
 (* ---------- HTTP/3 frames (RFC 9114 §7.1, §7.2.4; internal/http3/frames.go) ---------- *)
 
 (* dataFrame.Append / headersFrame.Append are read back by ParseNext: same type and length, payload
@@ -391,6 +429,20 @@ Theorem C05_h3_writer_narrow_lock_refuted :
   t_out (w_b st) <> wframe (enc false).
 Proof. exact writer_narrow_lock_refuted. Qed.
 Print Assumptions C05_h3_writer_narrow_lock_refuted.
+
+(* sequences of requests on one HTTP/3 request writer: the QPACK encoder is bound to the header buffer
+   once; the buffer is reset, never replaced, so every request of every sequence is framed as its own
+   field section whatever sizes came before *)
+Theorem C05_h3_writer_seq_frames_own_section : forall sections,
+  bw_run None bw_init sections = map wframe sections.
+Proof. exact writer_seq_frames_own_section. Qed.
+Print Assumptions C05_h3_writer_seq_frames_own_section.
+
+Theorem C05_h3_writer_seq_fresh_buffer_refuted :
+  let big := repeat x61 20 in
+  bw_run (Some 16) bw_init [[x01]; big; [x02]; [x03]] = [wframe [x01]; wframe big; whdr 0; whdr 0].
+Proof. exact writer_seq_fresh_buffer_refuted. Qed.
+Print Assumptions C05_h3_writer_seq_fresh_buffer_refuted.
 
 (* ---------- received field sections (RFC 9114 §4.2, §4.3; internal/http3/headers.go) ---------- *)
 
